@@ -8,6 +8,7 @@ code -> spec : every step (one event per upload, per directory pick, per public 
 """
 from __future__ import annotations
 
+import itertools
 import json
 import os
 import random
@@ -136,6 +137,48 @@ def op_add(w: World, op: dict):
     w.emit({"op": "AddObj", "s": op["s"], "x": op["x"]}, {"op": "add", "new": w.ids(res.transferred)})
 
 
+def op_addmany(w: World, op: dict):
+    """Several workspace items staged into ONE reference store and moved into the store together; every other item is
+    staged from a copy of the workspace on a second file system (memfs), so the references span file systems."""
+    import uuid
+
+    from dvc_objects.fs.local import LocalFileSystem
+    from dvc_objects.fs.memory import MemoryFileSystem
+
+    from dvc_data.hashfile.build import build
+    from dvc_data.hashfile.db.reference import ReferenceHashFileDB
+    from dvc_data.hashfile.transfer import transfer
+
+    odb = w.odb(op["s"])
+    lfs, mfs = LocalFileSystem(), MemoryFileSystem()
+    tag = uuid.uuid4().hex[:12]
+    mroot = f"/verif-ws-{tag}"
+    merged = ReferenceHashFileDB(MemoryFileSystem(), f"memory://verif-staging-{tag}", hash_name="md5")
+    xs = list(op["xs"])   # staged in the order given
+    act = {"op": "AddMany", "s": op["s"], "xs": sorted(xs)}
+    ids = set()
+    try:
+        try:
+            for i, x in enumerate(xs):
+                path, fs = w.ws_path(x), lfs
+                if i % 2 == 1:
+                    fs = mfs
+                    path = f"{mroot}/{x}"
+                    mfs.fs.put(w.ws_path(x), path, recursive=os.path.isdir(w.ws_path(x)))
+                staging, _meta, obj = build(odb, path, fs, "md5")
+                for oid, o in staging._obj_cache.items():
+                    merged.add(o.path, o.fs, oid)
+                ids.add(obj.hash_info)
+            res = transfer(merged, odb, ids, shallow=False, hardlink=False)
+        finally:
+            if mfs.fs.exists(mroot):
+                mfs.fs.rm(mroot, recursive=True)
+    except Exception as exc:  # noqa: BLE001 - the library's error is the observation
+        w.emit(act, {"op": "add", "exc": type(exc).__name__})
+        return
+    w.emit(act, {"op": "add", "new": w.ids(res.transferred)})
+
+
 def op_status(w: World, op: dict):
     from dvc_data.hashfile.status import status
 
@@ -217,7 +260,7 @@ def op_extdel(w: World, op: dict):
     w.emit({"op": "ExtDelete", "s": op["s"], "o": op["o"]}, {"op": "extdel"})
 
 
-OPS = {"Transfer": op_transfer, "AddObj": op_add, "Status": op_status, "CompareStatus": op_cmpstatus,
+OPS = {"Transfer": op_transfer, "AddObj": op_add, "AddMany": op_addmany, "Status": op_status, "CompareStatus": op_cmpstatus,
        "Check": op_check, "Gc": op_gc, "Tamper": op_tamper, "ExtDelete": op_extdel}
 
 
@@ -354,6 +397,21 @@ def index_push_cases(rng: random.Random, limit: int) -> list[dict]:
         first = xfer_op(c, via="index", entries=how)
         cases.append({"init": c["init"], "ops": [first, xfer_op(c, via="index", entries=how, F=[])], "kind": "index-push",
                       "useed": len(cases) % 3})
+    return cases
+
+
+def staging_cases() -> list[dict]:
+    """Several workspace items moved into a store out of one staging store whose references span two file systems."""
+    cases = []
+    roots = ["d1", "d2", "f1", "f2", "f3"]
+    for s in STORES:
+        fresh = "ok_p" if STORES[s] == "local" else "ok_u"
+        for have in ([], ["f2"], ["d1", "f1", "f2"], ["f1", "f3"]):
+            for n in (2, 3):
+                for xs in itertools.combinations(roots, n):
+                    for order in (list(xs), list(reversed(xs))):
+                        cases.append({"init": {s: {x: fresh for x in have}}, "ops": [{"op": "AddMany", "s": s, "xs": order}],
+                                      "kind": "staging", "useed": len(cases) % 3})
     return cases
 
 
@@ -636,6 +694,7 @@ def check_C11(run: core.Run, replay=None):
         cases += stale_cases(rng, 300 if quick else 10**9)
         cases += damaged_local_cases()
         cases += index_push_cases(rng, 200 if quick else 10**9)
+        cases += staging_cases()
         run.extra["generated_cases"] = {**{k: len(v) for k, v in gen.items()}, **{k: len(v) for k, v in gx.items()}}
     traces = execute(cases, run.seed)
     return _finish(run, traces,
